@@ -68,8 +68,8 @@ META = dict(
                'from scratch in the environment its node binds (C36_table_type_agreement_partial, C36_telab_sound); the unguarded '
                'statement is refuted by two concrete programs (C36_table_type_agreement_refuted, C36_table_type_agreement_full_fails). '
                'The models agree with the real front end on every generated case they cover.',
-    level_note='Partial. Table level: the theorem is guarded (three open findings: union(unify=True) of tables whose value types coincide but '
-               'whose key field sits at another row position is sent as a TableUnion of differently ordered rows; a matrix-row lookup into a table whose compound key starts '
+    level_note='Partial. Table level: the model of Table.union is the code as repaired by fixes/C36-union.diff (e910686b1: the no-select shortcut '
+               'compares whole row types). The theorem is guarded (two open findings: a matrix-row lookup into a table whose compound key starts '
                'with an interval, or whose point type is not the type of the matrix\'s first row key field, is accepted and typed by the '
                'front end but its MatrixAnnotateRowsTable fails the engine\'s TypeCheck). In [telab] the facts the front end has by '
                'construction (generated names are fresh; key fields survive annotate/select/drop; the re-keyed join table\'s key fields have '
